@@ -231,8 +231,8 @@ class LazyMixin:
 
     def materialize(self, lz: LazySeq) -> SV:
         cached = getattr(lz, "_mat", None)
-        if cached is not None and not self.binders:
-            return cached
+        if cached is not None:
+            return cached  # (only ever set outside binders: the cached term is closed)
         out = self._materialize(lz)
         if not self.binders:
             lz._mat = out
